@@ -68,6 +68,7 @@ def main():
     c03_hist.histories(run, drv)
     c03_hist.rereads(run, drv)
     c03_hist.subsub(run, drv)
+    c03_hist.flagged(run, drv)
     S.witnesses(run, drv)
     if run.tier == "thorough":
         run.leanchecker(["TdVerif.Props.C03"])
